@@ -63,14 +63,15 @@ def analyse(prog):
 
 
 def load_unclaimed():
+    """{(fn|kind|op): allowed count}"""
     d = {}
     if os.path.exists(UNCLAIMED):
         for line in open(UNCLAIMED):
             line = line.rstrip("\n")
             if not line or line.startswith("#"):
                 continue
-            k, _, why = line.partition("\t")
-            d[k] = why
+            parts = line.split("\t")
+            d[parts[0]] = int(parts[1])
     return d
 
 
@@ -79,17 +80,26 @@ def run(ctx, rep):
     found, n_assert, an = analyse(prog)
     unclaimed = load_unclaimed()
     rep.floor("R08.4", "arithmetic/bounds asserts analysed", n_assert, 450)
-    n_unclaimed = n_proved = 0
+    n_unclaimed = 0
     proved = n_assert - len([k for k in found if "|engine|" not in k])
+    groups = {}
     for k, (f, det, sp) in sorted(found.items()):
         full = ("R08.4:" + k).replace(" ", "_")
         if (rep.pid, full) in rep.known:
             rep.fail("R08.4", k, "possible %s at display scale: %s" % (k.split("|")[1], det), at=sp, fn=f.path, detail=det)
-        elif k in unclaimed:
-            n_unclaimed += 1
-        else:
-            rep.fail("R08.4", k, "cannot prove this %s assert dead under the display-scale contracts: %s (it is neither a recorded finding nor in the list of asserts outside the claim — a guard, saturating operation or widening was removed, or new unchecked arithmetic was added)"
-                     % (k.split("|")[1], det), status="undecided", at=sp, fn=f.path, detail=det)
+            continue
+        g = k.rsplit("|", 1)[0]
+        groups.setdefault(g, []).append((k, f, det, sp))
+    for g, items in sorted(groups.items()):
+        allowed = unclaimed.get(g, 0)
+        if len(items) <= allowed:
+            n_unclaimed += len(items)
+            continue
+        n_unclaimed += allowed
+        f = items[0][1]
+        rep.fail("R08.4", g + "|excess", "%d %s/%s assert(s) in %s cannot be proved dead under the display-scale contracts, the reference tree has %d outside the claim: a guard, saturating operation or widening was removed, or new unchecked arithmetic was added. Candidates: %s"
+                 % (len(items), g.split("|")[-2], g.split("|")[-1], f.key(), allowed, "; ".join("%s [%s]" % (d, sp) for _, _, d, sp in items[:4])),
+                 status="undecided", at=items[0][3], fn=f.path, detail=[d for _, _, d, _ in items])
     rep.analysed["R08.4:asserts proved dead"] = proved
     rep.analysed["R08.4:asserts outside the claim (c08_unclaimed.txt)"] = n_unclaimed
     rep.analysed["R08.4:private fields with inferred ranges"] = len(an.field_rng)
@@ -102,7 +112,7 @@ def run(ctx, rep):
 
 
 if __name__ == "__main__":
-    # baseline helper: print current unproved keys
+    # baseline helper: print current unproved keys (group them by fn|kind|op for c08_unclaimed.txt)
     import sys
     sys.path.insert(0, os.path.join(os.path.dirname(HERE), "engine"))
     from mirq import Program
